@@ -338,16 +338,16 @@ def compare(case, res, exp):
     return bad
 
 
-def wrong_signature(case, bad, form):
-    cls, axis = CLS[case["t"]].lower(), case["axis"]
+def wrong_stem(case, bad):
+    """'wrong-selection', or for NormalisedCounts / CorrFunc 'counts-and-weights-select-different-patches' when exactly one of
+    (counts, sum_weights) of a member is the right selection"""
+    member = lambda n: n.rsplit(".", 1)[0] if "." in n else ""  # noqa: E731
     kinds = {k for _, k, _ in bad}
-    wrong_members = {n.rsplit(".", 1)[0] if "." in n else "" for n, k, _ in bad if k in ("pc", "sw")}
     if case["t"] in ("nc", "cf") and kinds and kinds <= {"pc", "sw"}:
-        for m in wrong_members:
-            ks = {k for n, k, _ in bad if k in ("pc", "sw") and (n.rsplit(".", 1)[0] if "." in n else "") == m}
-            if len(ks) == 1:        # one of (counts, sum_weights) of a member is the right selection, the other is not
-                return "c17-%s-%s-counts-and-weights-select-different-patches:%s" % (cls, axis, form)
-    return "c17-%s-%s-wrong-selection:%s" % (cls, axis, form)
+        for m in {member(n) for n, _, _ in bad}:
+            if len({k for n, k, _ in bad if member(n) == m}) == 1:
+                return "counts-and-weights-select-different-patches"
+    return "wrong-selection"
 
 
 def close(a, b, exact):
@@ -470,9 +470,7 @@ def evaluate(case):
         else:
             bad = compare(case, res, exp)
             if bad:
-                sig = wrong_signature(case, bad, form)
-                stem = sig.split(":")[0].split("-%s-" % axis, 1)[1]
-                V.append((stem, "the selected container is not the sub-catalogue of the positions %s%s: %s"
+                V.append((wrong_stem(case, bad), "the selected container is not the sub-catalogue of the positions %s%s: %s"
                           % (exp["pos"][:8], "..." if len(exp["pos"]) > 8 else "",
                              "; ".join("%s %s" % (n, w) for n, _, w in bad[:4]))))
     # the laws (valid selections that returned)
@@ -517,7 +515,7 @@ def laws(case, x, raw, exp, obj, res):
         except Exception:           # noqa: BLE001  (no estimator for these members: not this law)
             s = None
         if s is not None:
-            exact = t in ("pc", "sw")
+            exact = t == "pc"       # sums of products of two weights may round
             smp = np.asarray(s.samples)
             if smp.shape != (len(pos), case["nb"]):
                 V.append(("selection-sample-differs", "samples of the selection have shape %s, expected %s" % (smp.shape, (len(pos), case["nb"]))))
@@ -639,7 +637,7 @@ def g_index(rng, case, kind=None, dtype=None, style=None, small=True):
         length = n
         if r < 0.1:
             length = rng.choice([n - 1, n + 1])
-        if r < 0.16 and r >= 0.1:
+        if (0.1 <= r < 0.16) or length <= 0:
             true = []
         elif small or rng.random() < 0.6:
             true = sorted(set(pick_values(rng, length, 0, length - 1, rng.randrange(1, kmax + 1), style if style != "negative" else "uniform", False)))
@@ -678,8 +676,8 @@ def g_case(rng, ctx, t=None, axis=None, shape=None, values=None, **ixkw):
     axis = axis or ("bins" if shape == "many-bins" and rng.random() < 0.8 else rng.choice(["patches", "patches", "patches", "bins"]))
     b = base.g_bin(rng, nb)
     values = values or rng.choice(["coded", "coded", "random"])
-    if axis == "bins" and nb * 0 + P * P > COQ_ENTRIES:
-        values = "random" if rng.random() < 0.5 else values     # too large for Coq anyway
+    if axis == "bins" and P * P > COQ_ENTRIES and rng.random() < 0.5:
+        values = "random"           # a selected bin is too large for Coq anyway
     case = dict(wide=True, t=t, shape=shape, nb=nb, P=P, auto=rng.random() < 0.4, edges=b["edges"], closed=b["closed"],
                 axis=axis, values=values, vseed=rng.randrange(2 ** 31))
     if t == "cf":
